@@ -1618,3 +1618,28 @@ CASES += [
             hasher,
         }"""),
 ]
+
+# ------------------------------------------------------------------ LAW equality of the float-backed semirings
+CX = "src/util/semirings/complex.rs"
+CASES += [
+    dict(name="law-eq-by-bits", file=CX, rule="LAW", props=["C13"], expect="Complex:eq-is-value-equality",
+         old="""#[derive(Debug, Clone, Copy, PartialEq, PartialOrd, Serialize, Deserialize)]""",
+         new="""#[derive(Debug, Clone, Copy, Serialize, Deserialize)]""",
+         more=[(CX, """impl Display for Complex {""", """impl PartialEq for Complex {
+    fn eq(&self, other: &Self) -> bool {
+        self.re.to_bits() == other.re.to_bits() && self.im.to_bits() == other.im.to_bits()
+    }
+}
+
+impl Display for Complex {""")]),
+    dict(name="law-eq-by-hand-ok", file=CX, rule="LAW", props=["C13"], expect=None,
+         old="""#[derive(Debug, Clone, Copy, PartialEq, PartialOrd, Serialize, Deserialize)]""",
+         new="""#[derive(Debug, Clone, Copy, Serialize, Deserialize)]""",
+         more=[(CX, """impl Display for Complex {""", """impl PartialEq for Complex {
+    fn eq(&self, other: &Self) -> bool {
+        self.re == other.re && self.im == other.im
+    }
+}
+
+impl Display for Complex {""")]),
+]
